@@ -32,7 +32,10 @@ SNIPPETS = [
                         # positional after named, for every kind of positional expression
                         '{ F(a: 1, msg) }', '{ F(a: 1, msg.attr) }', '{ F(a: 1, -t) }', '{ F(a: 1, $v) }', '{ F(a: 1, G()) }',
                         '{ F(a: 1, { 1 }) }', '{ F(a: 1, "s") }', '{ -t(a: 1, b) }', '{ F(x, a: 1, b: 2, y) }', '{ F(a: 1, a: 1) }',
-                        '{ F(a: $v) }', '{ F(a: msg) }', '{ F(a: -t) }', '{ F(a: { 1 }) }', '{ -t(a: msg) }', '{ F(a: G()) }', '{ F(a: msg.attr) }', '{ -t(a: -u) }', '{ F(: 1) }', '{ F(a 1) }', '{ F(1 2) }']),
+                        '{ F(a: $v) }', '{ F(a: msg) }', '{ F(a: -t) }', '{ F(a: { 1 }) }', '{ -t(a: msg) }', '{ F(a: G()) }', '{ F(a: msg.attr) }', '{ -t(a: -u) }',
+                        # duplicate named argument: not adjacent, names in no particular order, any count
+                        '{ F(y: 1, x: 2, y: 3) }', '{ -t(b: 1, a: 2, b: 3) }', '{ F(c: 1, b: 2, a: 3, c: 4) }', '{ F(x: 1, y: 2, x: 3) }',
+                        '{ F(size: 1, case: 2, size: 3) }', '{ F(a: 1, b: 2, c: 3, d: 4, e: 5, b: 6) }', '{ F(1, z: 1, m: 2, z: 3) }', '{ F(: 1) }', '{ F(a 1) }', '{ F(1 2) }']),
     ('{ $n ->\n        [one] x\n       *[other] y\n    }', ['{ $n ->\n        [one] x\n       *other] y\n    }', '{ $n ->\n        [one] x\n       *\n    }',
                                                              '{ $n ->\n       *[one x\n    }', '{ $n ->\n       *[] x\n    }', '{ $n ->\n       *[one two] x\n    }',
                                                              '{ $n -> \n       *[-] x\n    }', '{ $n - >\n       *[a] x\n    }', '{ $n ->  *[a] x\n    }']),
@@ -48,6 +51,8 @@ MUST_REJECT = {
     '{ msg ->\n       *[a] b\n    }', '{ msg.attr ->\n       *[a] b\n    }', '{ -term ->\n       *[a] b\n    }', '{ -term.attr }',
     '{ F(a: 1, 2) }', '{ F(a: 1, a: 2) }', '{ f(1) }', '{ Fun(1) }', '{ F(a: 1, msg) }', '{ F(a: 1, msg.attr) }', '{ F(a: 1, -t) }', '{ F(a: 1, $v) }',
     '{ F(a: 1, G()) }', '{ F(a: 1, { 1 }) }', '{ F(a: 1, "s") }', '{ -t(a: 1, b) }', '{ F(x, a: 1, b: 2, y) }', '{ F(a: 1, a: 1) }',
+    '{ F(y: 1, x: 2, y: 3) }', '{ -t(b: 1, a: 2, b: 3) }', '{ F(c: 1, b: 2, a: 3, c: 4) }', '{ F(x: 1, y: 2, x: 3) }',
+    '{ F(size: 1, case: 2, size: 3) }', '{ F(a: 1, b: 2, c: 3, d: 4, e: 5, b: 6) }', '{ F(1, z: 1, m: 2, z: 3) }',
     '{ "\\x" }', '{ "\\u00" }', '{ "\\U0000" }', '{ "abc\n    }', '{ "abc', '{ $x', '}', '{ $x }}', '{',
     '{ $n ->\n        [one] x\n       *\n    }',
 }
